@@ -1,5 +1,5 @@
 """C13: RNG skip-ahead equals sequential generation; streams never overlap."""
-from vkit.extract import Rule
+from vkit.extract import Rule, LoopContracts
 from vkit.runner import Unit
 
 ENG = "src/celeritas/random/XorwowRngEngine.hh"
@@ -219,23 +219,448 @@ def build_row(kind, i):
 def row_unit(kind, i, tier):
     t = 900 if (kind == "S" and i == 0) else 300
     return Unit("c13_row_%s%02d" % (kind, i), build_row(kind, i), "h_row", unwind=34, timeout=t, tier=tier,
-                must_have=[r"lemma.row_%s%d" % (kind, i)], checks=["--no-standard-checks"],
+                must_have=[r"lemma.row_%s%d" % (kind, i)], checks=["--no-standard-checks"], replay=REPLAY_SKIP if kind == "P" else REPLAY_SUB,
                 assumptions=["symbolic one-hot state (160 basis vectors); extension to all 2^160 states by xor-linearity (lemma c13_additive + paper lemma L-lin)"],
                 note="jump table row lemma")
 
 
+# ---------------------------------------------------------------------------
+# jump(count, table): base-4 digit decomposition, ghost exponent
+# ---------------------------------------------------------------------------
+GHOST_EXP = """
+typedef unsigned __int128 u128;
+u128 g_exp;                      /* ghost: total power of the table's base step applied so far */
+ArrayJumpPoly const* g_table;    /* ghost: the table the polynomials must come from */
+#define G_IDX(p) ((size_t)__CPROVER_POINTER_OFFSET(p) / sizeof(JumpPoly))
+/* contract of jump(JumpPoly) *as used with a table row*: by unit c13_jump_poly the
+ * state becomes g(T)x for g = row idx, and by the row lemmas c13_row_* (+ L-lin)
+ * that is T^(base * 4^idx) x; recorded in the ghost exponent. */
+void XE_jump_poly(XorwowRngEngine* self, JumpPoly const* jump_poly)
+__CPROVER_requires(self != 0 && self->state_ != 0)
+__CPROVER_requires(__CPROVER_same_object(jump_poly, g_table) && __CPROVER_POINTER_OFFSET(jump_poly) % sizeof(JumpPoly) == 0 && G_IDX(jump_poly) < 32)
+__CPROVER_assigns(self->state_->xorstate, g_exp)
+__CPROVER_ensures(g_exp == __CPROVER_old(g_exp) + ((u128)1 << (2 * G_IDX(jump_poly))))
+;
+"""
+
+JUMP_COUNT_RULES = member_rules(
+    [
+        Rule(r"\A", "\n    ull_int const g_count0 = count; u128 const g_exp0 = g_exp; g_table = jump_poly_arr; /* ghost: entry values, table in use */", 1, note="ghost entry snapshot injected"),
+        LoopContracts([
+             "    __CPROVER_assigns(count, jump_idx, self->state_->xorstate, g_exp)\n"
+             "    __CPROVER_loop_invariant(jump_idx <= 32 && (jump_idx < 32 ? count == (g_count0 >> (2 * jump_idx)) : count == 0))\n"
+             "    __CPROVER_loop_invariant(g_exp == g_exp0 + (jump_idx < 32 ? (g_count0 & ((1ull << (2 * jump_idx)) - 1)) : g_count0))\n"
+             "    __CPROVER_decreases(count)\n",
+             "    __CPROVER_assigns(i, self->state_->xorstate, g_exp)\n"
+             "    __CPROVER_loop_invariant(i <= num_jump && jump_idx < 32)\n"
+             "    __CPROVER_loop_invariant(g_exp == g_exp0 + (g_count0 & ((1ull << (2 * jump_idx)) - 1)) + (u128)i * ((u128)1 << (2 * jump_idx)))\n"
+             "    __CPROVER_decreases(num_jump - i)\n"]),
+        Rule(r"jump_poly_arr\.size\(\)", "32u", 1, note="Array<JumpPoly,32>::size() (bound in bindings.cc)"),
+        Rule(r"this->jump\(jump_poly_arr\[jump_idx\]\);", "XE_jump_poly(self, &jump_poly_arr->d[jump_idx]);", 1, note="member call with Array element reference"),
+    ]
+)
+
+
+def piece_jump_count(ctx):
+    return ctx.func(ENG, r"XorwowRngEngine::jump\(ull_int count, ArrayJumpPoly const& jump_poly_arr\)", JUMP_COUNT_RULES, name="XorwowRngEngine::jump(count, table)")
+
+
+def build_jump_count(ctx):
+    pc = piece_jump_count(ctx)
+    return (
+        HDR
+        + GHOST_EXP
+        + """
+void XE_jump_count(XorwowRngEngine* self, ull_int count, ArrayJumpPoly const* jump_poly_arr)
+__CPROVER_requires(__CPROVER_is_fresh(self, sizeof(*self)) && __CPROVER_is_fresh(self->state_, sizeof(XorwowState)) && __CPROVER_is_fresh(jump_poly_arr, sizeof(ArrayJumpPoly)))
+__CPROVER_requires(g_exp <= ((u128)1 << 100))
+__CPROVER_assigns(self->state_->xorstate, g_exp, g_table)
+__CPROVER_ensures(g_exp == __CPROVER_old(g_exp) + count && g_table == jump_poly_arr)
+{"""
+        + pc.body
+        + """}
+void h_jump_count(void)
+{
+    XorwowRngEngine* e;
+    ull_int count;
+    ArrayJumpPoly const* tab;
+    XE_jump_count(e, count, tab);
+    VERIF_CANARY();
+}
+"""
+    )
+
+
+# ---------------------------------------------------------------------------
+# discard / discard_subsequence / operator=(Initializer) / constructor
+# ---------------------------------------------------------------------------
+JUMP_COUNT_CONTRACT = """
+typedef unsigned __int128 u128;
+u128 g_exp;                      /* ghost: power of the base step of g_table applied by the last jump(count, table) calls */
+ArrayJumpPoly const* g_table;    /* ghost: table used by the last jump(count, table) */
+/* contract of jump(count, table), enforced in unit c13_jump_count */
+void XE_jump_count(XorwowRngEngine* self, ull_int count, ArrayJumpPoly const* jump_poly_arr)
+__CPROVER_requires(self != 0 && self->state_ != 0 && jump_poly_arr != 0)
+__CPROVER_requires(g_exp <= ((u128)1 << 100))
+__CPROVER_assigns(self->state_->xorstate, g_exp, g_table)
+__CPROVER_ensures(g_exp == __CPROVER_old(g_exp) + count && g_table == jump_poly_arr)
+;
+"""
+
+DISCARD_RULES = member_rules([
+    Rule(r"this->jump\(count, self->params_->jump\);", "XE_jump_count(self, count, &self->params_->jump);", 1, note="member call, Array reference -> pointer"),
+])
+DISCARD_SUB_RULES = member_rules([
+    Rule(r"this->jump\(count, self->params_->jump_subsequence\);", "XE_jump_count(self, count, &self->params_->jump_subsequence);", 1, note="member call, Array reference -> pointer"),
+])
+
+DISCARD_SIG = """
+void XE_discard(XorwowRngEngine* self, ull_int count)
+__CPROVER_requires(%s)
+__CPROVER_requires(g_exp <= ((u128)1 << 90))
+__CPROVER_assigns(self->state_->xorstate, self->state_->weylstate, g_exp, g_table)
+/* xor part: T^count (ghost exponent in units of the single-step table) */
+__CPROVER_ensures(g_exp == __CPROVER_old(g_exp) + count && g_table == &self->params_->jump)
+/* Weyl part: equals `count` repetitions of  d += 362437 (mod 2^32) */
+__CPROVER_ensures(self->state_->weylstate == (uint_t)(((u128)__CPROVER_old(self->state_->weylstate) + (u128)count * 362437u) & 0xffffffffu))
+"""
+DISCARD_SUB_SIG = """
+void XE_discard_subsequence(XorwowRngEngine* self, ull_int count)
+__CPROVER_requires(%s)
+__CPROVER_requires(g_exp <= ((u128)1 << 90))
+__CPROVER_assigns(self->state_->xorstate, g_exp, g_table)
+/* T^(count * 2^67): ghost exponent in units of the subsequence table; Weyl value untouched (frame) */
+__CPROVER_ensures(g_exp == __CPROVER_old(g_exp) + count && g_table == &self->params_->jump_subsequence)
+"""
+FRESH_ENGINE = "__CPROVER_is_fresh(self, sizeof(*self)) && __CPROVER_is_fresh(self->state_, sizeof(XorwowState)) && __CPROVER_is_fresh(self->params_, sizeof(XorwowRngParamsData))"
+VALID_ENGINE = "self != 0 && self->state_ != 0 && self->params_ != 0"
+
+
+def build_discard(ctx):
+    pc = ctx.func(ENG, r"CELER_FUNCTION void XorwowRngEngine::discard\(ull_int count\)", DISCARD_RULES, name="XorwowRngEngine::discard")
+    return (HDR + JUMP_COUNT_CONTRACT + DISCARD_SIG % FRESH_ENGINE + "{" + pc.body + """}
+void h_discard(void)
+{
+    XorwowRngEngine* e; ull_int count;
+    XE_discard(e, count);
+    VERIF_CANARY();
+}
+""")
+
+
+def build_discard_sub(ctx):
+    pc = ctx.func(ENG, r"CELER_FUNCTION void XorwowRngEngine::discard_subsequence\(ull_int count\)", DISCARD_SUB_RULES, name="XorwowRngEngine::discard_subsequence")
+    return (HDR + JUMP_COUNT_CONTRACT + DISCARD_SUB_SIG % FRESH_ENGINE + "{" + pc.body + """}
+void h_discard_sub(void)
+{
+    XorwowRngEngine* e; ull_int count;
+    XE_discard_subsequence(e, count);
+    VERIF_CANARY();
+}
+""")
+
+
+SPLITMIX_SPEC = """
+/* SplitMix64 reference (Steele, Lea, Flood 2014; prng.di.unimi.it/splitmix64.c) */
+static inline uint64_t spec_splitmix_out(uint64_t s)   /* output for state value s (already incremented) */
+{
+    uint64_t z = s;
+    z = (z ^ (z >> 30)) * 0xbf58476d1ce4e5b9ull;
+    z = (z ^ (z >> 27)) * 0x94d049bb133111ebull;
+    return z ^ (z >> 31);
+}
+#define SM_GAMMA 0x9e3779b97f4a7c15ull
+typedef struct { uint64_t state; } SplitMix64;
+"""
+
+SPLITMIX_RULES = [
+    Rule(r"\(state \+=", "(self->state +=", 1, note="data member -> self->"),
+]
+
+
+def build_splitmix(ctx):
+    pc = ctx.func(ENG, r"CELER_FUNCTION std::uint64_t XorwowRngEngine::SplitMix64::operator\(\)\(\)", SPLITMIX_RULES, name="XorwowRngEngine::SplitMix64::operator()")
+    return (HDR + SPLITMIX_SPEC + """
+uint64_t SM_call(SplitMix64* self)
+__CPROVER_requires(__CPROVER_is_fresh(self, sizeof(*self)))
+__CPROVER_assigns(self->state)
+__CPROVER_ensures(self->state == __CPROVER_old(self->state) + SM_GAMMA)
+__CPROVER_ensures(__CPROVER_return_value == spec_splitmix_out(self->state))
+{""" + pc.body + """}
+void h_splitmix(void)
+{
+    SplitMix64* r;
+    SM_call(r);
+    VERIF_CANARY();
+}
+""")
+
+
+INIT_RULES = member_rules([
+    Rule(r"auto& s = self->state_->xorstate;", "uint_t* s = self->state_->xorstate.d;", 1, note="auto& to Array -> pointer to its storage"),
+    Rule(r"SplitMix64 rng\{init\.seed\[0\]\};", "SplitMix64 rng = {init->seed.d[0]};", 1, note="aggregate init; const& param -> pointer"),
+    Rule(r"\brng\(\)", "(g_ret[g_n] = SM_call(&rng), g_st[g_n] = rng.state, g_ret[g_n++])", (1, 7), note="functor call -> function call; ghost record of each SplitMix64 output and state"),
+    Rule(r"this->discard_subsequence\(init\.subsequence\);",
+         "g_seeded = *self->state_; g_order = 1; { u128 g_e = g_exp; XE_discard_subsequence(self, init->subsequence);"
+         " __CPROVER_assert(g_order == 1 && g_table == &self->params_->jump_subsequence && g_exp - g_e == init->subsequence, \"ghost.subsequence: state advanced by exactly init.subsequence subsequences, right after seeding\"); g_order = 2; }", 1,
+         note="member call; ghost snapshot + ghost assertion injected"),
+    Rule(r"this->discard\(init\.offset\);",
+         "{ u128 g_e = g_exp; XE_discard(self, init->offset);"
+         " __CPROVER_assert(g_order == 2 && g_table == &self->params_->jump && g_exp - g_e == init->offset, \"ghost.offset: then advanced by exactly init.offset draws\"); g_order = 3; }", 1,
+         note="member call; ghost assertion injected"),
+    Rule(r"return \*this;", "return self;", 1, note="*this -> self"),
+])
+
+
+def build_init(ctx):
+    pc = ctx.func(ENG, r"XorwowRngEngine::operator=\(Initializer_t const& init\)", INIT_RULES, name="XorwowRngEngine::operator=(Initializer)")
+    return (HDR + JUMP_COUNT_CONTRACT.split("/* contract of jump")[0] + SPLITMIX_SPEC + """
+XorwowState g_seeded; int g_order; /* ghost: state right after seeding; call order */
+uint64_t g_ret[8], g_st[8]; unsigned g_n; /* ghost: k-th SplitMix64 output and generator state */
+uint64_t SM_call(SplitMix64* self)
+__CPROVER_requires(self != 0)
+__CPROVER_assigns(self->state)
+__CPROVER_ensures(self->state == __CPROVER_old(self->state) + SM_GAMMA)
+__CPROVER_ensures(__CPROVER_return_value == spec_splitmix_out(self->state))
+;
+""" + (DISCARD_SIG % VALID_ENGINE) + ";\n" + (DISCARD_SUB_SIG % VALID_ENGINE) + ";\n" + """
+XorwowRngEngine* XE_assign_init(XorwowRngEngine* self, XorwowRngInitializer const* init)
+__CPROVER_requires(""" + FRESH_ENGINE + """ && __CPROVER_is_fresh(init, sizeof(*init)))
+__CPROVER_requires(g_exp == 0 && g_n == 0)
+__CPROVER_assigns(self->state_->xorstate, self->state_->weylstate, g_exp, g_table, g_seeded, g_order, g_n, __CPROVER_object_whole(g_ret), __CPROVER_object_whole(g_st))
+/* seeding depends on seed[0] only: the six words are the 32-bit halves of the first three outputs
+ * (g_ret[k], each == spec_splitmix_out(g_st[k]) by SM_call's contract) of a SplitMix64 seeded with seed[0] */
+__CPROVER_ensures(g_n == 3 && g_st[0] == (uint64_t)init->seed.d[0] + SM_GAMMA && g_st[1] == (uint64_t)init->seed.d[0] + 2 * SM_GAMMA && g_st[2] == (uint64_t)init->seed.d[0] + 3 * SM_GAMMA)
+__CPROVER_ensures(g_seeded.xorstate.d[0] == (uint_t)g_ret[0] && g_seeded.xorstate.d[1] == (uint_t)(g_ret[0] >> 32))
+__CPROVER_ensures(g_seeded.xorstate.d[2] == (uint_t)g_ret[1] && g_seeded.xorstate.d[3] == (uint_t)(g_ret[1] >> 32))
+__CPROVER_ensures(g_seeded.xorstate.d[4] == (uint_t)g_ret[2] && g_seeded.weylstate == (uint_t)(g_ret[2] >> 32))
+/* then subsequence, then offset, each exactly once (ghost assertions in the body), in that order */
+__CPROVER_ensures(g_order == 3 && g_exp == (u128)init->subsequence + init->offset)
+__CPROVER_ensures(__CPROVER_return_value == self)
+{""" + pc.body + """}
+void h_init(void)
+{
+    XorwowRngEngine* e; XorwowRngInitializer const* init;
+    XE_assign_init(e, init);
+    VERIF_CANARY();
+}
+""")
+
+
+# ---------------------------------------------------------------------------
+# constructor, reseed_rng, canonical reals
+# ---------------------------------------------------------------------------
+STATE_REF = """
+typedef struct { XorwowState* ptr; size_type size; } StateItems;   /* StateCollection<XorwowState, reference, native>: {pointer,size} view; operator[] asserts i < size */
+typedef struct { StateItems state; } XorwowRngStateRef;             /* NativeRef<XorwowRngStateData> */
+"""
+CTOR_RULES = [
+    Rule(r"\bstate\.state\.size\(\)", "state->state.size", 1, note="Collection::size()"),
+    Rule(r"state_ = &state\.state\[tid\];", "__CPROVER_assert(tid < state->state.size, \"celer_expect: Collection::operator[] i < size\"); self->state_ = &state->state.ptr[tid];", 1, note="Collection::operator[] -> bounds assertion + pointer index; member -> self->"),
+]
+
+
+def piece_ctor(ctx):
+    pc = ctx.func(ENG, r"XorwowRngEngine::XorwowRngEngine\(ParamsRef const& params,\s*StateRef const& state,\s*TrackSlotId tid\)", CTOR_RULES, name="XorwowRngEngine::XorwowRngEngine")
+    import re as _re
+    from vkit.extract import ExtractionDrift
+    if not _re.search(r":\s*params_\(params\)\s*$", pc.head):
+        raise ExtractionDrift("constructor initializer list is not ': params_(params)': " + pc.head[-60:])
+    return pc
+
+
+CTOR_SIG = """
+void XE_ctor(XorwowRngEngine* self, XorwowRngParamsData const* params, XorwowRngStateRef const* state, size_type tid)
+__CPROVER_requires(%s)
+__CPROVER_requires(tid < state->state.size)
+__CPROVER_assigns(self->params_, self->state_)
+__CPROVER_ensures(self->params_ == params && self->state_ == &state->state.ptr[tid])
+"""
+
+
+def build_ctor(ctx):
+    pc = piece_ctor(ctx)
+    return (HDR + STATE_REF + CTOR_SIG % "__CPROVER_is_fresh(self, sizeof(*self)) && __CPROVER_is_fresh(state, sizeof(*state)) && state->state.size <= 4096 && __CPROVER_is_fresh(state->state.ptr, sizeof(XorwowState) * state->state.size)"
+            + "{\n    self->params_ = params; /* member initializer list ': params_(params)' (checked on the extracted header) */" + pc.body + """}
+void h_ctor(void)
+{
+    XorwowRngEngine* e; XorwowRngParamsData const* p; XorwowRngStateRef const* st; size_type tid;
+    XE_ctor(e, p, st, tid);
+    VERIF_CANARY();
+}
+""")
+
+
+RESEED = "src/celeritas/random/RngReseed.cc"
+RESEED_RULES = [
+    Rule(r"static_assert\([^;]*;", "", 1, note="static_assert dropped (re-asserted in bindings.cc)"),
+    Rule(r"CELER_EXPECT\(event_id\);", "CELER_EXPECT(event_id != (ull_int)-1);", 1, note="OpaqueId::operator bool -> != invalid"),
+    Rule(r"state\.size\(\)", "state->state.size", 1, note="XorwowRngStateData::size() == state.size()"),
+    Rule(r"#\s*if CELERITAS_OPENMP == CELERITAS_OPENMP_TRACK\s*#\s*pragma omp parallel for\s*#\s*endif", "", 1, note="OpenMP pragma dropped: iterations are treated sequentially (CELERITAS_OPENMP is 'event' in this build, so the pragma is compiled out)"),
+    Rule(r"TrackSlotId::size_type i", "size_type i", 1, note="OpaqueId size_type"),
+    Rule(r"RngEngine::Initializer_t init;", "XorwowRngInitializer init = {{{0}}, 0, 0}; /* default member initializers, bound in bindings.cc */", 1, note="default-initialised aggregate"),
+    Rule(r"init\.seed = params\.seed;", "init.seed = params->seed;", 1, note="const& -> pointer"),
+    Rule(r"event_id\.unchecked_get\(\)", "event_id", 1, note="OpaqueId value"),
+    Rule(r"RngEngine engine\(params, state, TrackSlotId\{i\}\);", "XorwowRngEngine engine; XE_ctor(&engine, params, state, i);", 1, note="constructor call"),
+    Rule(r"engine = init;", "XE_assign_init(&engine, &init);", 1, note="operator=(Initializer)"),
+    LoopContracts([
+        "    __CPROVER_assigns(i, g_cnt, g_sub, g_off, g_seed, __CPROVER_object_whole(state->state.ptr))\n"
+        "    __CPROVER_loop_invariant(i <= size && size == state->state.size)\n"
+        "    __CPROVER_loop_invariant(g_cnt == ((ull_int)g_w < i ? 1 : 0))\n"
+        "    __CPROVER_loop_invariant((ull_int)g_w < i ==> (g_sub == event_id * size + g_w && g_off == 0 && g_seed == params->seed.d[0]))\n"
+        "    __CPROVER_decreases(size - i)\n"]),
+]
+
+
+def build_reseed(ctx):
+    pc = ctx.func(RESEED, r"void reseed_rng\(HostCRef<RngParamsData> const& params,", RESEED_RULES, name="reseed_rng (host)")
+    return (HDR + STATE_REF + """
+size_type g_w;            /* ghost witness slot (arbitrary): what happened to slot g_w */
+unsigned g_cnt; ull_int g_sub, g_off; unsigned g_seed;   /* ghost: number of initialisations of slot g_w and their arguments */
+#define G_SLOT(e, st) ((size_type)((e)->state_ - (st)->state.ptr))
+XorwowRngStateRef const* g_state;
+""" + (CTOR_SIG % "self != 0 && state != 0") + ";\n" + """
+/* contract of operator=(Initializer) (unit c13_init) seen from the caller: the slot's state becomes
+ * a function of (seed[0], subsequence, offset); recorded for the witness slot */
+XorwowRngEngine* XE_assign_init(XorwowRngEngine* self, XorwowRngInitializer const* init)
+__CPROVER_requires(self != 0 && init != 0 && self->state_ != 0 && __CPROVER_same_object(self->state_, g_state->state.ptr))
+__CPROVER_assigns(*self->state_, g_cnt, g_sub, g_off, g_seed)
+__CPROVER_ensures(G_SLOT(self, g_state) == g_w ? (g_cnt == __CPROVER_old(g_cnt) + 1 && g_sub == init->subsequence && g_off == init->offset && g_seed == init->seed.d[0])
+                                               : (g_cnt == __CPROVER_old(g_cnt) && g_sub == __CPROVER_old(g_sub) && g_off == __CPROVER_old(g_off) && g_seed == __CPROVER_old(g_seed)))
+;
+void reseed_rng(XorwowRngParamsData const* params, XorwowRngStateRef const* state, ull_int event_id)
+__CPROVER_requires(__CPROVER_is_fresh(params, sizeof(*params)) && __CPROVER_is_fresh(state, sizeof(*state)) && state->state.size >= 1 && state->state.size <= 4096 && __CPROVER_is_fresh(state->state.ptr, sizeof(XorwowState) * state->state.size))
+__CPROVER_requires(event_id != (ull_int)-1)
+__CPROVER_requires(g_state == state && g_w < state->state.size && g_cnt == 0)
+/* stated assumption: event * slots + slot does not wrap (needed for streams of different events to be distinct) */
+__CPROVER_requires((unsigned __int128)event_id * state->state.size + state->state.size <= ((unsigned __int128)1 << 64))
+__CPROVER_assigns(__CPROVER_object_whole(state->state.ptr), g_cnt, g_sub, g_off, g_seed)
+/* every slot (witness g_w arbitrary) is initialised exactly once with (params.seed, event*slots + slot, 0) */
+__CPROVER_ensures(g_cnt == 1 && g_seed == params->seed.d[0] && g_off == 0)
+__CPROVER_ensures((unsigned __int128)g_sub == (unsigned __int128)event_id * state->state.size + g_w)
+{""" + pc.body + """}
+void h_reseed(void)
+{
+    XorwowRngParamsData const* p; XorwowRngStateRef const* st; ull_int ev;
+    reseed_rng(p, st, ev);
+    VERIF_CANARY();
+}
+""")
+
+
+CANON = "src/celeritas/random/detail/GenerateCanonical32.hh"
+CANON_RULES = [
+    Rule(r"static_assert\([^;]*;", "", "+", note="static_assert dropped (re-asserted in bindings.cc)"),
+    Rule(r"\brng\(\)", "rng_call(rng)", "+", note="generator call -> stub with ghost draw counter"),
+]
+RNG_STUB = """
+unsigned g_draws;          /* ghost: number of 32-bit draws consumed */
+unsigned g_u[4];           /* ghost: the values drawn */
+typedef struct Gen Gen;
+unsigned int rng_call(Gen* rng)
+__CPROVER_requires(g_draws < 4)
+__CPROVER_assigns(g_draws)
+__CPROVER_ensures(g_draws == __CPROVER_old(g_draws) + 1 && __CPROVER_return_value == g_u[__CPROVER_old(g_draws)])
+;
+"""
+
+
+def build_canon_double(ctx):
+    pc = ctx.func(CANON, r"CELER_FUNCTION double GenerateCanonical32<double>::operator\(\)\(Generator& rng\)", CANON_RULES, name="GenerateCanonical32<double>::operator()")
+    return (HDR + RNG_STUB + """
+double canon_double(Gen* rng)
+__CPROVER_requires(g_draws == 0)
+__CPROVER_assigns(g_draws)
+__CPROVER_ensures(__CPROVER_return_value >= 0.0 && __CPROVER_return_value < 1.0)
+__CPROVER_ensures(g_draws == 2)
+/* exactly ((u0 << 21) ^ u1) * 2^-53, a 53-bit integer scaled: no rounding */
+__CPROVER_ensures(__CPROVER_return_value * 9007199254740992.0 == (double)((((ull_int)g_u[0]) << 21) ^ (ull_int)g_u[1]))
+{""" + pc.body + """}
+void h_canon_double(void)
+{
+    Gen* g; unsigned u0, u1; g_u[0] = u0; g_u[1] = u1;
+    canon_double(g);
+    VERIF_CANARY();
+}
+""")
+
+
+def build_canon_float(ctx):
+    pc = ctx.func(CANON, r"CELER_FUNCTION float GenerateCanonical32<float>::operator\(\)\(Generator& rng\)", CANON_RULES, name="GenerateCanonical32<float>::operator()")
+    return (HDR + RNG_STUB + """
+float canon_float(Gen* rng)
+__CPROVER_requires(g_draws == 0)
+__CPROVER_assigns(g_draws)
+__CPROVER_ensures(__CPROVER_return_value >= 0.0f && __CPROVER_return_value < 1.0f)
+__CPROVER_ensures(g_draws == 1)
+{""" + pc.body + """}
+void h_canon_float(void)
+{
+    Gen* g; unsigned u0; g_u[0] = u0;
+    canon_float(g);
+    VERIF_CANARY();
+}
+""")
+
+
+def _skip_argv(mode):
+    def f(inputs, fl):
+        runs = []
+        if "count" in inputs:
+            c = inputs["count"].rstrip("ul")
+            runs.append([mode, "0x12345678", "0x9abcdef0", "0xdeadbeef", "0x0badcafe", "0x31415926", "99", c])
+            runs.append([mode, "1", "0", "0", "0", "0", "0", c])
+        runs.append(["battery"])
+        return runs
+    return f
+
+
+REPLAY_SKIP = {"src": "replay/c13.cc", "argv": _skip_argv("discard")}
+REPLAY_SUB = {"src": "replay/c13.cc", "argv": _skip_argv("subseq")}
+REPLAY_CF = {"src": "replay/c13.cc", "argv": lambda inputs, fl: ["canon_float", inputs.get("u0", "0xffffffff").rstrip("u")]}
+REPLAY_CD = {"src": "replay/c13.cc", "argv": lambda inputs, fl: ["canon_double", inputs.get("u0", "0").rstrip("u"), inputs.get("u1", "0").rstrip("u")]}
+
 UNITS = [
     Unit("c13_next", build_next, "h_next", enforce="XE_next", timeout=120, must_have=[r"postcondition"],
          checks=["--bounds-check", "--pointer-check", "--conversion-check"],
-         note="next() == Marsaglia xorwow step T; frame: xorstate only"),
+         replay=REPLAY_SKIP, note="next() == Marsaglia xorwow step T; frame: xorstate only"),
     Unit("c13_additive", build_additive, "h_additive", unwind=6, timeout=120, must_have=[r"lemma.additive", r"lemma.kernel"],
          checks=["--bounds-check"], note="spec T is xor-linear and has trivial kernel"),
     Unit("c13_call", build_call, "h_call", enforce="XE_call", replace=["XE_next"], timeout=120, must_have=[r"postcondition"],
          checks=["--bounds-check", "--pointer-check", "--conversion-check"],
-         note="operator(): one T step, weyl += 362437, return weyl + v"),
+         replay=REPLAY_SKIP, note="operator(): one T step, weyl += 362437, return weyl + v"),
     Unit("c13_jump_poly", build_jump_poly, "h_jump_poly", enforce="XE_jump_poly", replace=["XE_next"], loop_contracts=True, pre_unwindset=["XE_jump_poly.0:6"], timeout=300, object_bits=12,
          must_have=[r"XE_jump_poly.postcondition", r"loop_invariant_step", r"loop_invariant_base", r"loop_decreases", r"XE_jump_poly.unwind"],
          checks=["--bounds-check", "--pointer-check", "--no-signed-overflow-check"],
          assumptions=["signed-overflow/undefined-shift checks off for this unit: `1 << j` with j==31 is well defined in C++14 and later (the code's language) but not in C"],
-         note="jump(poly) == g(T)x; loops are constant-bounded (5x32x5): full unwinding + unwinding assertions is complete, not a bounded stand-in"),
+         replay=REPLAY_SKIP, note="jump(poly) == g(T)x; loops are constant-bounded (5x32x5): full unwinding + unwinding assertions is complete, not a bounded stand-in"),
+    Unit("c13_jump_count", build_jump_count, "h_jump_count", enforce="XE_jump_count", replace=["XE_jump_poly"], loop_contracts=True, timeout=300,
+         must_have=[r"XE_jump_count.postcondition", r"loop_invariant_step", r"loop_decreases", r"celer_assert", r"XE_jump_poly.precondition"],
+         checks=["--bounds-check", "--pointer-check"],
+         replay=REPLAY_SKIP, note="jump(count, table): sum of base-4 digits times 4^idx equals count (ghost exponent), every polynomial comes from the table at idx < 32; unbounded loop-contract proof"),
+    Unit("c13_discard", build_discard, "h_discard", enforce="XE_discard", replace=["XE_jump_count"], timeout=300, backend="z3",
+         must_have=[r"XE_discard.postcondition", r"XE_jump_count.precondition"], checks=["--bounds-check", "--pointer-check"],
+         replay=REPLAY_SKIP, note="discard(count): xor part advanced by count single steps (contract of jump(count,table) with the step table), Weyl value advanced by count*362437 mod 2^32 for every 64-bit count"),
+    Unit("c13_discard_sub", build_discard_sub, "h_discard_sub", enforce="XE_discard_subsequence", replace=["XE_jump_count"], timeout=300,
+         must_have=[r"XE_discard_subsequence.postcondition"], checks=["--bounds-check", "--pointer-check"],
+         replay=REPLAY_SUB, note="discard_subsequence(count): jump(count, subsequence table); Weyl value and everything else unchanged"),
+    Unit("c13_splitmix", build_splitmix, "h_splitmix", enforce="SM_call", timeout=300, backend="z3",
+         must_have=[r"SM_call.postcondition"], checks=["--bounds-check", "--pointer-check"],
+         note="SplitMix64 step equals the reference"),
+    Unit("c13_init", build_init, "h_init", enforce="XE_assign_init", replace=["SM_call", "XE_discard", "XE_discard_subsequence"], timeout=300,
+         must_have=[r"XE_assign_init.postcondition", r"ghost.subsequence", r"ghost.offset"], checks=["--bounds-check", "--pointer-check"],
+         replay=REPLAY_SKIP, note="operator=(Initializer): state is a function of (seed[0], subsequence, offset) only: seed -> subsequence -> offset"),
+    Unit("c13_ctor", build_ctor, "h_ctor", enforce="XE_ctor", timeout=120, must_have=[r"XE_ctor.postcondition", r"celer_expect"], checks=["--bounds-check", "--pointer-check"],
+         note="engine constructor binds slot tid of the state collection"),
+    Unit("c13_reseed", build_reseed, "h_reseed", enforce="reseed_rng", replace=["XE_ctor", "XE_assign_init"], loop_contracts=True, timeout=300, backend="z3",
+         must_have=[r"reseed_rng.postcondition", r"loop_invariant_step", r"XE_ctor.precondition", r"overflow"],
+         checks=["--bounds-check", "--pointer-check", "--unsigned-overflow-check"],
+         assumptions=["event_id * slots + slots <= 2^64 (stated precondition; wrap for absurd event ids is not excluded by the code)", "OpenMP-parallel iterations treated sequentially"],
+         note="reseed_rng: every slot initialised exactly once with subsequence event*slots+slot, same seed, offset 0 (ghost witness slot)"),
+    Unit("c13_canon_double", build_canon_double, "h_canon_double", enforce="canon_double", replace=["rng_call"], timeout=300,
+         must_have=[r"canon_double.postcondition"], replay=REPLAY_CD, checks=["--bounds-check", "--pointer-check", "--float-overflow-check", "--nan-check"],
+         note="GenerateCanonical32<double>: in [0,1), two draws, exact 53-bit value"),
+    Unit("c13_canon_float", build_canon_float, "h_canon_float", enforce="canon_float", replace=["rng_call"], timeout=300,
+         must_have=[r"canon_float.postcondition"], replay=REPLAY_CF, checks=["--bounds-check", "--pointer-check"],
+         note="GenerateCanonical32<float>: in [0,1), one draw"),
 ] + [row_unit("P", i, "quick") for i in range(32)] + [row_unit("S", i, "quick") for i in range(32)]
